@@ -2,7 +2,7 @@ package main
 
 // vh c12run: replays serialisation cases on the real code.
 //
-//	case   {id, vs:[V], lib:bool, cli:[cfg], yaml:bool, dbg:bool}
+//	case   {id, vs:[V], lib:bool, cli:[cfg], yaml:bool, dbg:bool, yin:[bytes of a YAML document]}
 //	record {id, vs:[V as the Go values really are], lib:[{marshal, tojson, tostring, atjson, attext, ijson, itext, rt}],
 //	        cli:[{cfg, status, out, err}], yaml:{s1, text, s2, back}}
 //
@@ -143,7 +143,12 @@ func (r *c12Runner) run(c map[string]any) (rec c12M) {
 	}()
 	var vals []any
 	encs := []any{}
-	for _, x := range c["vs"].([]any) {
+	cvs, _ := c["vs"].([]any)
+	if yin, ok := c["yin"].([]any); ok { // a YAML document for --yaml-input
+		res := r.exec(r.tmp, []string{"--yaml-input", "-c", "."}, nil, []byte(c12FromBytes(yin)))
+		rec["yin"] = res
+	}
+	for _, x := range cvs {
 		v, err := c12Dec(x)
 		if err != nil {
 			rec["harness_error"] = err.Error()
